@@ -640,6 +640,15 @@ func run() int {
 					if strings.Contains(nr.Panic, "out of range") || strings.Contains(nr.Panic, "out of memory") {
 						repro = true
 					}
+					// a predicted size that no allocator can serve shows natively as the run-time
+					// refusing it: a panic, which the harness may have caught and reported as such
+					if elems >= 1<<40 {
+						for _, f := range nr.Failed {
+							if strings.HasSuffix(f, "no-panic") {
+								repro = true
+							}
+						}
+					}
 				}
 				if strings.HasSuffix(df.AssertID, ".no-deadlock") {
 					for _, f := range nr.Failed {
